@@ -126,13 +126,6 @@ theorem step_restores_of_site (s s' : State) (er : Err) (hc : Calm s) (h : step 
         have := hsite f' st' vals er' hd
         simp [setTop, hf, this, horig]
 
-/-- The one side condition: a variable entry is popped in state N. (`eval_expr` leaves the state of a
-failing `Variable` untouched; the model writes that state as `N`, which is the only state a variable
-entry is ever pushed with.) -/
-def VarFresh (st : St) : Expr → Prop
-  | .var .. => st = .N
-  | _ => True
-
 macro "site_auto" : tactic => `(tactic| (
   intro f' st' vals er h
   simp only [dispatch] at h
@@ -167,7 +160,7 @@ theorem evalCall_restores (p : Program) (f : Frame) (e : Expr) (id : Nat) (used 
         (try (obtain ⟨h1, h2, h3, h4⟩ := h; subst h1 h2 h3 h4; exact hfin _ rfl))
 
 /-- **Every error site of `dispatch` restores exactly.** -/
-theorem every_site_restores (p : Program) (f : Frame) (st : St) (e : Expr) (hv : VarFresh st e) :
+theorem every_site_restores (p : Program) (f : Frame) (st : St) (e : Expr) :
     SiteRestores p f st e := by
   cases e
   case call id u recv args =>
@@ -178,40 +171,36 @@ theorem every_site_restores (p : Program) (f : Frame) (st : St) (e : Expr) (hv :
       simp only at h
       exact evalCall_restores p f _ _ _ _ f' st' vals er h
     all_goals simp at h
-  case var => simp [VarFresh] at hv; subst hv; site_auto
-  case ifE => clear hv; cases st <;> site_auto
-  case matchE => clear hv; cases st <;> site_auto
-  case forE => clear hv; cases st <;> site_auto
-  case int => clear hv; site_auto
-  case str => clear hv; site_auto
-  case lambda => clear hv; site_auto
-  case paren => clear hv; site_auto
-  case invalid => clear hv; site_auto
-  case unsup => clear hv; site_auto
-  case binop => clear hv; site_auto
-  case letE => clear hv; site_auto
-  case assign => clear hv; site_auto
-  case update => clear hv; site_auto
-  case whileE => clear hv; site_auto
-  case ret => clear hv; site_auto
-  case brk => clear hv; site_auto
-  case cont => clear hv; site_auto
-  case list => clear hv; site_auto
-  case tuple => clear hv; site_auto
-
-/-- The entry on top of the current frame, if it is a variable, is in state N. -/
-def TopVarFresh (s : State) : Prop :=
-  ∀ f callers st e rest, s.frames = f :: callers → f.exprs = (st, e) :: rest → VarFresh st e
+  case var => site_auto
+  case ifE => cases st <;> site_auto
+  case matchE => cases st <;> site_auto
+  case forE => cases st <;> site_auto
+  case int => site_auto
+  case str => site_auto
+  case lambda => site_auto
+  case paren => site_auto
+  case invalid => site_auto
+  case unsup => site_auto
+  case binop => site_auto
+  case letE => site_auto
+  case assign => site_auto
+  case update => site_auto
+  case whileE => site_auto
+  case ret => site_auto
+  case brk => site_auto
+  case cont => site_auto
+  case list => site_auto
+  case tuple => site_auto
 
 /-- **C07 over the model.** After ANY error step of a calm session (any node kind, any frame,
 including the stack-limit error), every response to `eval`, `:resume` × k is the same error and the
 call stack — pending entry, receiver, arguments, everything — is the one the first failure saw. -/
 theorem resume_same_error (fuel k : Nat) (s s' : State) (e : Err) (hc : Calm s)
-    (h : step s = .error s' e) (hv : TopVarFresh s) :
+    (h : step s = .error s' e) :
     ∀ o ∈ resumes (fuel + 1) k s', ∃ s'', o = .error s'' e ∧ s''.frames = s.frames :=
   resume_any_number fuel e k s s' hc h
     (step_restores_of_site s s' e hc h (fun f callers st e0 rest hf he =>
-      every_site_restores s.prog _ st e0 (hv f callers st e0 rest hf he)))
+      every_site_restores s.prog _ st e0))
 
 -- ------------------------------------------------------------------ examples
 
